@@ -38,12 +38,14 @@ def all_harnesses():
         for mn in (0, 1, 2, 3):
             for ck in (True, False):
                 core = ln in (6, 7, 15, 22, 23) and mn in (0, 2)
-                hs.append(Harness(f"c13_step_final_l{ln}_min{mn}_{'ck' if ck else 'nock'}",
-                                  f"crate::c13::step_equiv(2, {ln}, {mn}, 8, {str(ck).lower()})", unwind=max(14, ln + 3),
-                                  unit="update_state(FinalCheck)", shape={"mode": "final", "len": ln, "min_size": mn, "checksum": ck},
-                                  core=core, timeout=1500))
+                h = Harness(f"c13_step_final_l{ln}_min{mn}_{'ck' if ck else 'nock'}",
+                            f"crate::c13::step_equiv(2, {ln}, {mn}, 8, {str(ck).lower()})", unwind=max(14, ln + 3),
+                            unit="update_state(FinalCheck)", shape={"mode": "final", "len": ln, "min_size": mn, "checksum": ck},
+                            core=core, timeout=1500)
+                h.priority = (ln == 23)  # the only quick-tier length whose frame can hold an FCS (CRC compare / emit path)
+                hs.append(h)
     return hs
 
 
 def harnesses(tier, seed):
-    return select(all_harnesses(), tier, seed, 10)
+    return select(all_harnesses(), tier, seed, 10, budget=3200, max_one=260)
